@@ -187,6 +187,12 @@ struct Catcher
   long c;
   long operator()() const { return c; }
 };
+// a catcher that handles nothing: it rethrows the exception in flight
+struct CatcherRe
+{
+  long c;
+  long operator()() const { throw; }
+};
 
 // Fixed scenario (not generated): a slot object referred to *by reference* from the functor of another
 // slot.  visitor<slot> parents the inner slot's rep to the outer rep when the outer slot binds and must
